@@ -200,6 +200,24 @@ def PQ.pop (q : PQ) : Option (Item × PQ) :=
   | none => none
   | some m => some (m, { q with items := q.items.erase m })
 
+/-- `sortutil.PriorityQueue` in its real representation: the `priorityQueueHeap` slice managed by
+    container/heap (`heap.Push` / `heap.Pop` with `Less = Item.lt`) and `orderCounter` -/
+structure HPQ where
+  heap    : List Item := []
+  counter : Nat := 0
+  deriving Repr, Inhabited
+
+/-- `PriorityQueue.Push`: clamp, `heap.Push(pq.heap, &pqItem{value, priority, pq.orderCounter, 0})`, counter++ -/
+def HPQ.push (q : HPQ) (val : Nat) (prio : Int) : HPQ :=
+  { heap := Heap.push Item.lt q.heap { prio := if prio < 0 then 0 else prio, seq := q.counter, val := val },
+    counter := q.counter + 1 }
+
+/-- `PriorityQueue.Pop`: `nil` on an empty heap, otherwise `heap.Pop(pq.heap)` -/
+def HPQ.pop (q : HPQ) : Option (Item × HPQ) :=
+  match Heap.pop Item.lt q.heap with
+  | none => none
+  | some (x, h) => some (x, { q with heap := h })
+
 /-- `TaskQueue.queues`: root monitor id ↦ queue -/
 abbrev TQ := List (Nat × PQ)
 
@@ -382,25 +400,34 @@ structure St where
   errs    : List Nat := []
   bad     : Bool := false               -- the model hit an assertion (never for generated scripts)
 
-/-- `proc.AddEvent(ev, parent.NewChildMonitor(prio))` resp. `proc.AddEvent(ev, root)` -/
+/-- `proc.AddEvent(ev, parent.NewChildMonitor(prio))` resp. `proc.AddEvent(ev, root)`: a triggering
+    event activates its monitor and is queued with the monitor's priority, another one is skipped.
+    (`bad` records an assertion of the monitor API; the queue does not depend on it.) -/
 def addEvent (cfg : Cfg) (s : St) (idx : Nat) (n : Node) : St :=
   let (rm1, k) := match n.prio with
     | some p => ((step cfg s.rm (.newChild p)).getD s.rm, s.rm.mons.length)
     | none => (s.rm, 0)
-  let prio := (rm1.mons[k]?.map (·.prio)).getD 0
+  let prio := n.prio.getD 0          -- the root monitor has priority 0
   if n.trig then
-    match step cfg rm1 (.activate k) with
-    | some rm2 => { s with rm := rm2, q := s.q.push idx prio, monOf := (idx, k) :: s.monOf }
-    | none => { s with bad := true }
+    let (rm2, ok) := match step cfg rm1 (.activate k) with
+      | some r => (r, true)
+      | none => (rm1, false)
+    { s with rm := rm2, q := s.q.push idx prio, monOf := (idx, k) :: s.monOf, bad := s.bad || !ok }
   else
-    match step cfg rm1 (.skip k) with
-    | some rm2 => { s with rm := rm2 }
-    | none => { s with bad := true }
+    let (rm2, ok) := match step cfg rm1 (.skip k) with
+      | some r => (r, true)
+      | none => (rm1, false)
+    { s with rm := rm2, bad := s.bad || !ok }
+
+/-- the scripted events selected by `sel`, with their indices, in script order -/
+def kidsOf (nodes : List Node) (sel : Node → Bool) : List (Node × Nat) :=
+  nodes.zipIdx.filter (fun p => sel p.1)
 
 def addAll (cfg : Cfg) (nodes : List Node) (sel : Node → Bool) (s : St) : St :=
-  (nodes.zipIdx.filter (fun p => sel p.1)).foldl (fun s p => addEvent cfg s p.2 p.1) s
+  (kidsOf nodes sel).foldl (fun s p => addEvent cfg s p.2 p.1) s
 
-/-- the worker loop: pop, run the action (sample `HighestPriority`, add the children), finish -/
+/-- the worker loop: pop, run the action (sample `HighestPriority`, add the children — also when
+    the rule then fails), finish; a failing rule puts the event into the error report -/
 def loop (cfg : Cfg) (nodes : List Node) : Nat → St → St
   | 0, s => s
   | fuel + 1, s =>
@@ -412,9 +439,11 @@ def loop (cfg : Cfg) (nodes : List Node) : Nat → St → St
       let s2 := addAll cfg nodes (fun n => n.parent == some idx) s1
       let fails := (nodes[idx]?.map (·.fails)).getD false
       let k := ((s2.monOf.find? (·.1 == idx)).map (·.2)).getD 0
-      match step cfg s2.rm (.finish k) with
-      | some rm3 => loop cfg nodes fuel { s2 with rm := rm3, errs := if fails then idx :: s2.errs else s2.errs }
-      | none => { s2 with bad := true }
+      let (rm3, ok) := match step cfg s2.rm (.finish k) with
+        | some r => (r, true)
+        | none => (s2.rm, false)
+      loop cfg nodes fuel { s2 with rm := rm3, errs := if fails then idx :: s2.errs else s2.errs,
+                                    bad := s2.bad || !ok }
 
 def runScript (cfg : Cfg) (nodes : List Node) : St :=
   loop cfg nodes (nodes.length + 1) (addAll cfg nodes (fun n => n.parent.isNone) {})
